@@ -1,6 +1,7 @@
 import ScrapliModel.Lemmas.Loss
 import ScrapliModel.Lemmas.LossGen
 import ScrapliModel.Lemmas.LossNc
+import ScrapliModel.Lemmas.LossNcEcho
 import ScrapliModel.Lemmas.Channel
 import ScrapliModel.Generated.Consts
 import ScrapliModel.Generated.C06ReadLoop
@@ -395,58 +396,93 @@ can still be delivered (e.g. it first fires exactly at the end of the complete r
 strikes before that many bytes can arrive: `ninv_of_exact`), and nothing is stored under the RPC's
 message-id. Then no interleaving of the three goroutines and no resolution of the `select`
 makes `sendRPC` return a reply. -/
-theorem nc_loss_never_ok (msgP : Bytes → Bool) (idOf : Bytes → Nat) (sched : List NActor)
+theorem nc_loss_never_ok (msgP : Bytes → Bool) (idOf : Bytes → Nat) (echoRest : Bytes → Option Bytes) (sched : List NActor)
     (n n' : NSt) (r : Rpc) (outs : List Bytes) (h : NInv msgP n r) :
-    nrun msgP idOf sched n r ≠ (n', .inr (.ok outs)) := by
+    nrun msgP idOf echoRest sched n r ≠ (n', .inr (.ok outs)) := by
   intro hr
-  obtain ⟨e, he⟩ := nrun_result msgP idOf sched n n' r _ h hr
+  obtain ⟨e, he⟩ := nrun_result msgP idOf echoRest sched n n' r _ h hr
   simp at he
+
+/-- Safety for an RPC over ANY transport, echoing or not (`Driver.read`'s `</rpc>` branch): if feeding
+`Driver.read` the chunks that can still be delivered never makes it store a message (`feedSafe`: every
+buffer on which the delimiter matcher fires is an echoed request, which is discarded), no interleaving
+and no `select` resolution makes `sendRPC` return a reply. Subsumes `nc_loss_never_ok` chunk-wise. -/
+theorem nc_loss_never_ok_any_transport (msgP : Bytes → Bool) (idOf : Bytes → Nat)
+    (echoRest : Bytes → Option Bytes) (sched : List NActor) (n n' : NSt) (r : Rpc) (outs : List Bytes)
+    (h : NInvF msgP echoRest n r) :
+    nrun msgP idOf echoRest sched n r ≠ (n', .inr (.ok outs)) := by
+  intro hr
+  obtain ⟨e, he⟩ := nrunF_result msgP idOf echoRest sched n n' r _ h hr
+  simp at he
+
+/-- the full promptness statement for the echoing case (kept as a `Prop`; proved today only from the
+moment the echo has been discarded, where `NInv` holds again and `nc_loss_yields_error` applies — the
+promptness lemmas are stated over `NInv`, not yet over `NInvF`) -/
+def nc_echo_loss_yields_error_full : Prop :=
+  ∀ (msgP : Bytes → Bool) (idOf : Bytes → Nat) (echoRest : Bytes → Option Bytes) (pre : List Nat) (t1 : Nat)
+    (post : List Nat) (n n1 : NSt) (r r1 : Rpc), NInvF msgP echoRest n r → NLostArmed n →
+    nrun msgP idOf echoRest (nticks pre) n r = (n1, .inl r1) → n1.ch.lost = true →
+    r.writes.length < post.length →
+    ∃ n' e, nrun msgP idOf echoRest (nticks (pre ++ t1 :: post)) n r = (n', .inr (.error e))
+
+/-- the echo hypotheses are satisfiable: the request [9,9,7] comes back (7 = delimiter, 9 marks a
+request), then 2 of the 3 reply bytes [1,2,7]; the echo is discarded, the reply never completes -/
+example :
+    let msgP : Bytes → Bool := fun b => b.contains 7
+    let echoRest : Bytes → Option Bytes := fun b => if b.contains 9 then some (b.dropWhile (· != 7)).tail else none
+    let n : NSt := { ch := { fresh 5 .eof with pending := [[9, 9, 7], [1, 2, 7]] }, nb := [], fwd := none, store := [] }
+    let r : Rpc := { writes := [], mid := 101 }
+    NInvF msgP echoRest n r ∧
+    (match nrun msgP (fun _ => 101) echoRest (nticks [0, 0, 0, 0, 0]) n r with
+      | (_, .inr (.error e)) => e == .connection
+      | _ => false) = true := by
+  refine ⟨⟨by decide, rfl⟩, by decide⟩
 
 /-- THE PROPERTY for an RPC in flight: if after `pre` ticks a transport read has reported the loss
 and `sendRPC` has not returned, it returns an error within `1 + (remaining writes + 1)` further
 ticks — for an RPC already waiting in its `select` that is "time of loss + 2 ticks" (one for
 `Driver.read` to pick the error up, one for the `select`). It never waits for its timer. -/
-theorem nc_loss_yields_error (msgP : Bytes → Bool) (idOf : Bytes → Nat) (pre : List Nat) (t1 : Nat)
+theorem nc_loss_yields_error (msgP : Bytes → Bool) (idOf : Bytes → Nat) (echoRest : Bytes → Option Bytes) (pre : List Nat) (t1 : Nat)
     (post : List Nat) (n n1 : NSt) (r r1 : Rpc) (h : NInv msgP n r) (hl : NLostArmed n)
-    (hpre : nrun msgP idOf (nticks pre) n r = (n1, .inl r1)) (hlost : n1.ch.lost = true)
+    (hpre : nrun msgP idOf echoRest (nticks pre) n r = (n1, .inl r1)) (hlost : n1.ch.lost = true)
     (hpost : r.writes.length < post.length) :
-    ∃ n' e, nrun msgP idOf (nticks (pre ++ t1 :: post)) n r = (n', .inr (.error e)) := by
+    ∃ n' e, nrun msgP idOf echoRest (nticks (pre ++ t1 :: post)) n r = (n', .inr (.error e)) := by
   have hsplit : nticks (pre ++ t1 :: post) = nticks pre ++ (ntick t1 ++ nticks post) := by
     simp [nticks]
   rw [hsplit, nrun_append, hpre]
   simp only
-  obtain ⟨i1, i2, _⟩ := nrun_inv msgP idOf (nticks pre) n n1 r r1 h hpre
-  have harm := nrun_lostArmed msgP idOf (nticks pre) n n1 r r1 h hl hpre hlost
+  obtain ⟨i1, i2, _⟩ := nrun_inv msgP idOf echoRest (nticks pre) n n1 r r1 h hpre
+  have harm := nrun_lostArmed msgP idOf echoRest (nticks pre) n n1 r r1 h hl hpre hlost
   obtain ⟨a, b, hab, _⟩ := ntick_split t1
   rw [hab, List.append_assoc, List.cons_append]
-  apply narmed_returns msgP idOf a (b ++ nticks post) n1 r1 i1 harm
+  apply narmed_returns msgP idOf echoRest a (b ++ nticks post) n1 r1 i1 harm
   rw [rpcCount_append, rpcCount_nticks]
   omega
 
 /-- later RPCs: with a dead transport (`left = 0`) every RPC whose reply is not already complete in
 the buffers returns an error, never a reply; one more tick than above because the channel's read
 goroutine may first have to notice. -/
-theorem nc_later_ops_error (msgP : Bytes → Bool) (idOf : Bytes → Nat) (t0 t1 : Nat) (post : List Nat)
+theorem nc_later_ops_error (msgP : Bytes → Bool) (idOf : Bytes → Nat) (echoRest : Bytes → Option Bytes) (t0 t1 : Nat) (post : List Nat)
     (n : NSt) (r : Rpc) (h : NInv msgP n r) (h0 : n.ch.left = 0)
     (hpost : r.writes.length < post.length) :
-    (∃ n' e, nrun msgP idOf (nticks (t0 :: t1 :: post)) n r = (n', .inr (.error e))) ∧
-    ∀ sched n' outs, nrun msgP idOf sched n r ≠ (n', .inr (.ok outs)) := by
-  refine ⟨?_, fun sched n' outs => nc_loss_never_ok msgP idOf sched n n' r outs h⟩
+    (∃ n' e, nrun msgP idOf echoRest (nticks (t0 :: t1 :: post)) n r = (n', .inr (.error e))) ∧
+    ∀ sched n' outs, nrun msgP idOf echoRest sched n r ≠ (n', .inr (.ok outs)) := by
+  refine ⟨?_, fun sched n' outs => nc_loss_never_ok msgP idOf echoRest sched n n' r outs h⟩
   have hsplit : nticks (t0 :: t1 :: post) = ntick t0 ++ (ntick t1 ++ nticks post) := by
     simp [nticks]
   rw [hsplit, nrun_append]
-  rcases h0r : nrun msgP idOf (ntick t0) n r with ⟨n1, r1 | res⟩
+  rcases h0r : nrun msgP idOf echoRest (ntick t0) n r with ⟨n1, r1 | res⟩
   · simp only
-    obtain ⟨i1, i2, _⟩ := nrun_inv msgP idOf (ntick t0) n n1 r r1 h h0r
+    obtain ⟨i1, i2, _⟩ := nrun_inv msgP idOf echoRest (ntick t0) n n1 r r1 h h0r
     obtain ⟨a0, b0, hab0⟩ := ntick_split_rdr t0
-    have harm : NArmed n1 := nrun_arms msgP idOf a0 b0 n n1 r r1 h h0 (by rw [← hab0]; exact h0r)
+    have harm : NArmed n1 := nrun_arms msgP idOf echoRest a0 b0 n n1 r r1 h h0 (by rw [← hab0]; exact h0r)
     obtain ⟨a, b, hab, _⟩ := ntick_split t1
     rw [hab, List.append_assoc, List.cons_append]
-    apply narmed_returns msgP idOf a (b ++ nticks post) n1 r1 i1 harm
+    apply narmed_returns msgP idOf echoRest a (b ++ nticks post) n1 r1 i1 harm
     rw [rpcCount_append, rpcCount_nticks]
     omega
   · simp only
-    obtain ⟨e, he⟩ := nrun_result msgP idOf (ntick t0) n n1 r res h h0r
+    obtain ⟨e, he⟩ := nrun_result msgP idOf echoRest (ntick t0) n n1 r res h h0r
     exact ⟨n1, e, by rw [he]⟩
 
 /-- NETCONF hypotheses are satisfiable: a 6-byte reply cut into two reads, the connection lost after
@@ -456,7 +492,7 @@ example :
     let n : NSt := { ch := { fresh 4 .eof with pending := [[1, 2, 3], [4, 5, 6]] }, nb := [], fwd := none, store := [] }
     let r : Rpc := { writes := [], mid := 101 }
     NInv msgP n r ∧ NLostArmed n ∧
-    (match nrun msgP (fun _ => 101) (nticks [0, 3, 5, 1, 2]) n r with
+    (match nrun msgP (fun _ => 101) (fun _ => none) (nticks [0, 3, 5, 1, 2]) n r with
       | (_, .inr (.error e)) => e == .connection
       | _ => false) = true := by
   refine ⟨ninv_of_exact _ _ _ ⟨by decide, by decide⟩ (by decide) rfl, by simp [NLostArmed, fresh], by decide⟩
